@@ -1,6 +1,6 @@
 ----------------------------- MODULE TraceMapRun ----------------------------
 (* Trace validation for MapRun.  One ndjson line = one history of runs on one pipeline and run folder:     *)
-(*   {desc, inputs, ev: [{e, F, cleanup, fixed, f, kwargs, results, loaded, cls, args, attributed}]}  (all fields always present)     *)
+(*   {desc, inputs, ev: [{e, F, cleanup, fixed, f, kwargs, results, loaded, cls, args, attributed, disk}]}  (all fields always present)     *)
 (* e in begin | call | ret | fail | return | raise | reject                                                 *)
 EXTENDS MapRun, Json, IOUtils, TLCExt
 Traces == ndJsonDeserialize(IOEnv.TRACE_FILE)
@@ -35,7 +35,10 @@ TRaise  == IsEvent("raise") /\ Raise /\ UNCHANGED exc
 TReject == IsEvent("reject") /\ phase = "idle"
            /\ ~ValidMapRequestF(d, inp, FSet(Ev.F)) /\ UNCHANGED mvars /\ UNCHANGED exc
 
-Next == TBegin \/ TCall \/ TRet \/ TFail \/ TReturn \/ TRaise \/ TReject
+(* the run was interrupted (process death / exception); Ev.disk = what is completely stored afterwards *)
+TInterrupt == IsEvent("interrupt") /\ Interrupt({<<Ev.disk[k][1], Ev.disk[k][2]>> : k \in DOMAIN Ev.disk}) /\ exc' = NoExc
+
+Next == TInterrupt \/ TBegin \/ TCall \/ TRet \/ TFail \/ TReturn \/ TRaise \/ TReject
 Spec == Init /\ [][Next]_<<mvars, tid, l, exc>>
 
 Track == IF l > TLCGet(tid) THEN TLCSet(tid, l) ELSE TRUE
